@@ -4,6 +4,7 @@ import os
 import pickle
 
 import numpy as np
+import pandas as pd
 from hypothesis import strategies as st
 
 from vlib import binarizers, gen, ops, streams, twin
@@ -34,7 +35,7 @@ ASSUMPTIONS = [
 ]
 NT_FLOOR = 0.3
 
-FIT_KINDS = ["dec_type", "rew_type", "len_dr", "len_dc", "rew_none", "rew_nan", "rew_inf", "ts_nonbinary",
+FIT_KINDS = ["dec_type", "rew_type", "len_dr", "len_dc", "len_dc_series", "len_dc_frame", "len_dc_array", "rew_none", "rew_nan", "rew_inf", "ts_nonbinary",
              "ctx_missing", "ctx_superfluous", "ctx_1d", "ctx_type", "pf_wrong_columns", "clusters_few_rows"]
 QUERY_KINDS = ["before_fit", "q_missing", "q_1d", "q_type", "q_wrong_columns"]
 ARM_KINDS = ["add_dup", "add_none", "add_nan", "add_inf", "add_binarizer_non_ts", "add_binarizer_noncallable",
@@ -50,7 +51,7 @@ def applicable(kind, h):
     """Is the catalogue entry meaningful for the model state h (a gen.History)?"""
     ctxl = h.contextual
     lp = h.lp[0]
-    if kind in ("len_dc", "ctx_missing", "ctx_1d", "ctx_type"):
+    if kind in ("len_dc", "len_dc_series", "len_dc_frame", "len_dc_array", "ctx_missing", "ctx_1d", "ctx_type"):
         return ctxl
     if kind == "ctx_superfluous":
         return not ctxl
@@ -91,7 +92,7 @@ def draw_reject(h):
     if group == "fit":
         # the rejections that surface from inside training (after validation) are the ones most likely to leave
         # state behind: weight them
-        pool = pool + ["pf_wrong_columns"] * 4 + ["clusters_few_rows"] * 3
+        pool = pool + ["pf_wrong_columns"] * 4 + ["clusters_few_rows"] * 3 + ["len_dc_series"] * 2
     ok = [k for k in pool if group == "init" or applicable(k, h)]
     if not ok:
         ok = ["add_dup"]
@@ -123,6 +124,8 @@ def draw_reject(h):
         if kind == "ctx_superfluous":
             cx = draw(gen.contexts_st(len(dec), 2, h.grid))
         payload = {"call": call, "decisions": dec, "rewards": rew, "contexts": cx}
+        if kind in ("len_dc_series", "len_dc_frame", "len_dc_array"):
+            payload["longer"] = draw(st.booleans())
     elif group == "query":
         payload = {"call": draw(st.sampled_from(["predict", "predict_expectations"]))}
         if kind == "q_wrong_columns":
@@ -272,6 +275,16 @@ def reject_call(mab, kind, payload, cfg):
             rew = rew[:-1]
         elif kind == "len_dc":
             cx = cx + [cx[0]]
+        elif kind in ("len_dc_series", "len_dc_frame", "len_dc_array"):
+            # the same mismatch in the other containers the signature accepts; a Series is one column of values here
+            # (two or more decisions), whose length is checked like that of any other container
+            rows = (cx + [cx[0]]) if p.get("longer") else cx[:-1]
+            if kind == "len_dc_series":
+                cx = pd.Series([r[0] for r in rows])
+            elif kind == "len_dc_frame":
+                cx = pd.DataFrame(rows)
+            else:
+                cx = np.asarray(rows, dtype=float)
         elif kind == "rew_none":
             rew[0] = None
         elif kind == "rew_nan":
